@@ -494,7 +494,7 @@ Inductive dclass :=
 Inductive dop :=
 | DSubset (ns : list string)        (* ddf[[...]] *)
 | DMask                             (* ddf[ddf.v > k] *)
-| DLocAll                           (* ddf.loc[lo:hi] covering every partition *)
+| DLocAll                           (* ddf.loc[lo:hi] over the whole known index range *)
 | DAssign (n : string)
 | DDrop (ns : list string)
 | DRename (old new : string)
